@@ -1132,3 +1132,8 @@ func factWorthy(fn *ssa.Function) map[ssa.Value]bool {
 
 	return out
 }
+
+// instrReachableFrom: b can execute after a on some path of their function.
+func instrReachableFrom(a, b ssa.Instruction) bool {
+	return pathAvoiding(a, nil, func(ssa.Instruction) bool { return false }, func(i ssa.Instruction) bool { return i == b }) != nil
+}
